@@ -642,6 +642,36 @@ def r_forward(root):
                         for pr in sorted(ps): out.append(Finding(pr, pr + ".F", rel, q, " ".join(ast.unparse(c).split())[:100], "%s takes %s and %s accepts it, but the call does not hand it on: the callee works with its default instead of the caller's value" % (fn.name, p, nm), witness="a non-default %s" % p))
     if inst < 20: raise AnalysisError("forwarding rule: only %d pass-through sites found" % inst)
     return inst, out
+# ---------------------------------------------------------------------------------------------------------------- one-shot iterators
+ONESHOT = {"filter", "map", "zip", "iter", "reversed", "enumerate"}
+def r_oneshot(root):
+    """a local bound to a one-shot iterator (filter / map / zip / iter / reversed / enumerate / a generator expression) is
+    consumed once: a second use (a second call argument, a second loop, a use inside a loop) sees an exhausted iterator
+    and silently does nothing.  Every such local has at most one use reached by that definition."""
+    import glob as _glob, os as _os
+    out = []; inst = 0
+    files = sorted(_os.path.relpath(f, root) for f in _glob.glob(_os.path.join(root, "textx", "**", "*.py"), recursive=True))
+    for rel in files:
+        t = load(root, rel)
+        for fn in [n for n in ast.walk(t) if isinstance(n, ast.FunctionDef)]:
+            cands = [n for n in own_nodes(fn) if isinstance(n, ast.Assign) and len(n.targets) == 1 and isinstance(n.targets[0], ast.Name) and ((isinstance(n.value, ast.Call) and isinstance(n.value.func, ast.Name) and n.value.func.id in ONESHOT) or isinstance(n.value, ast.GeneratorExp))]
+            if not cands: continue
+            fi = sem.info(fn)
+            for a in cands:
+                v = a.targets[0].id; dn = fi.node_of(a)
+                uses = []
+                for x in own_nodes(fn):
+                    if isinstance(x, ast.Name) and x.id == v and isinstance(x.ctx, ast.Load):
+                        n = fi.node_of(x)
+                        if n is not None and dn is not None and dn.id in fi.rd.defs_of(n, v): uses.append(x)
+                in_loop = [u for u in uses if any(isinstance(l, (ast.For, ast.While)) and not any(y is a for y in ast.walk(l)) and enclosing_func(l) is fn and not (isinstance(l, ast.For) and any(y is u for y in ast.walk(l.iter))) for l in ancestors(u))]
+                inst += 1
+                ok = len(uses) <= 1 and not in_loop
+                q = qualname(a); ps = set(props_for(rel, q)) | set(FILE_PROPS.get(rel, ())) | ({"C14", "C15", "C18"} if rel == MODEL and "model" in q else set())
+                for p in sorted(ps): ob(p, p + ".I", rel, q, "%s = %s: %d use(s)" % (v, " ".join(ast.unparse(a.value).split())[:50], len(uses)), ok)
+                if not ok:
+                    for p in sorted(ps): out.append(Finding(p, p + ".I", rel, q, " ".join(ast.unparse(a).split())[:100], "%s is a one-shot iterator and is used %s: every use after the first sees it exhausted and silently does nothing" % (v, "%d times" % len(uses) if len(uses) > 1 else "inside a loop"), witness="any input that reaches the second use with a non-empty sequence"))
+    return max(inst, 1), out
 def families():
     """clause family letter -> properties it can attribute findings to"""
     allp = set()
@@ -650,4 +680,4 @@ def families():
     for _f, _pre, ps in MEMO_ATTRIB: mp |= set(ps)
     op = set()
     for ps in OPT_PROPS.values(): op |= set(ps)
-    return {"T": allp, "M": mp, "O": op, "S": {"C19", "C16", "C20", "C21", "C01", "C02", "C32", "C11", "C12", "C22"}, "P": {"C09", "C11"}, "V": {"C07", "C08", "C09", "C28", "C34", "C33", "C23"}, "F": {"C17", "C19", "C20", "C21", "C22", "C26", "C27", "C28", "C30", "C31"}}
+    return {"T": allp, "M": mp, "O": op, "S": {"C19", "C16", "C20", "C21", "C01", "C02", "C32", "C11", "C12", "C22"}, "P": {"C09", "C11"}, "V": {"C07", "C08", "C09", "C28", "C34", "C33", "C23"}, "F": {"C17", "C19", "C20", "C21", "C22", "C26", "C27", "C28", "C30", "C31"}, "I": allp | {"C14", "C15", "C18", "C26", "C30", "C31"}}
